@@ -3,11 +3,13 @@ module verifharness
 go 1.13
 
 require (
+	github.com/golang/protobuf v1.4.2
 	github.com/google/uuid v1.3.0
 	github.com/massnetorg/mass-core v0.0.0-20210816132538-be1c10e6c62a
 	github.com/shirou/gopsutil v3.21.5+incompatible
 	github.com/syndtr/goleveldb v1.0.1-0.20210305035536-64b5b1c73954
 	golang.org/x/crypto v0.0.0-20210322153248-0c34fe9e7dc2
+	google.golang.org/grpc v1.26.0
 	massnet.org/mass v0.0.0
 )
 
